@@ -22,8 +22,12 @@ var (
 	tAny    = reflect.TypeOf((*interface{})(nil)).Elem()
 	tErr    = reflect.TypeOf((*error)(nil)).Elem()
 	tSInt   = reflect.TypeOf([]int(nil))
-	typeOf  = map[string]reflect.Type{"int": tInt, "string": tString, "pint": tPInt, "any": tAny, "err": tErr, "sint": tSInt}
+	tNInt   = reflect.TypeOf(namedInt(0))
+	typeOf  = map[string]reflect.Type{"int": tInt, "string": tString, "pint": tPInt, "any": tAny, "err": tErr, "sint": tSInt, "nint": tNInt}
 )
+
+// namedInt has the same kind as int but is a different type: neither is assignable to the other
+type namedInt int
 
 var theInt = 5
 var staleInt = 98
@@ -46,6 +50,8 @@ func argValue(kind string) interface{} {
 		return errors.New("e")
 	case "sl":
 		return []int{1}
+	case "ni":
+		return namedInt(3)
 	}
 	panic(kind)
 }
@@ -54,6 +60,9 @@ func argValue(kind string) interface{} {
 func kindOfValue(v reflect.Value) string {
 	switch v.Kind() {
 	case reflect.Int:
+		if v.Type() == tNInt {
+			return "ni"
+		}
 		return "i"
 	case reflect.String:
 		return "s"
@@ -145,8 +154,8 @@ func cmdCallable(args map[string]string) {
 		w.WriteExec(evs)
 		evs = evs[:0]
 	}
-	ptypes := []string{"int", "string", "pint", "any", "err", "sint"}
-	vkinds := []string{"i", "s", "p", "pn", "nil", "e", "sl"}
+	ptypes := []string{"int", "string", "pint", "any", "err", "sint", "nint"}
+	vkinds := []string{"i", "s", "p", "pn", "nil", "e", "sl", "ni"}
 	maxArgs := 2
 	if thorough {
 		maxArgs = 3
